@@ -531,3 +531,27 @@ def r01_8(ctx):
     for cname in ("MultipleShooting", "SingleShooting"):
         shooting_content(ctx, cname)
         kinds_table(ctx, cname)
+
+
+def check_pack_order_fine(ctx):
+    """The refined-sampling path has its own copy of the pack: expr_f's p input is vertcat(stage.p, stage.v), and it is fed with
+    get_p_sys(..., include_signals=False) followed by the sampled signals (registration order: bspline variables, then parameters)."""
+    P = ctx.prog
+    g = P.own_method("Stage", "_grid_intg_fine")
+    scg = ctx.scope(g)
+    efd = [d for d in scg.defs.get("expr_f", []) if d.kind == "assign"]
+    ok = len(efd) == 1 and isinstance(efd[0].value, ast.Call) and len(efd[0].value.args) >= 2 and isinstance(efd[0].value.args[1], ast.List) and len(efd[0].value.args[1].elts) >= 6 \
+        and ast.unparse(efd[0].value.args[1].elts[5]).replace(" ", "") == "vertcat(stage.p,stage.v)"
+    if not ok:
+        raise AnalysisError("_grid_intg_fine: expression function with p input vertcat(stage.p, stage.v) not found")
+    feeds = [c for c in walk_no_nested(g.node) if is_call_to(c, "get_p_sys", "stage._method")]
+    plain = [c for c in feeds if any(k.arg == "include_signals" and ast.unparse(k.value) == "False" for k in c.keywords)]
+    appended = any(is_call_to(c, "vertcat") and any("signals_sampled" in ast.unparse(a) for a in c.args) and ast.unparse(c.args[-1]).startswith("signals_sampled") for c in walk_no_nested(g.node))
+    f, k, seq, nodes = get_p_sys_sequence(ctx)
+    want = stage_pack_sequence(ctx)
+    supplied = [s for s in seq if s != "signals"] + (["V:bspline", "P:bspline"] if (plain and appended) or "signals" in seq else [])
+    common = lcs(supplied, want)
+    displaced = [x for x in want if x not in common] + [x for x in supplied if x not in common and x not in want]
+    for kind in want:
+        ctx.check(kind not in displaced, "_grid_intg_fine~Stage.p+Stage.v", detail="kind=%s" % kind,
+                  expected="order of the expression function's p input: %s" % want, found="order fed by _grid_intg_fine: %s" % supplied, fi=g, sample={"kind": kind})
